@@ -348,7 +348,11 @@ PROPS["C11"] = {
             "between uses (URL with query, args API Add/Peek, DisablePathNormalizing, headers, cookies, Connection: close, byte and stream bodies); per exchange "
             "a generated response (interim 100, fixed / chunked+trailer / until-close / bodiless, sizes around MaxResponseBodySize incl. oversize documents that "
             "look like HTTP responses, HTTP/1.0, Connection: close, peer closing silently afterwards, 1/8 mutated or truncated, trailing bytes), configurations "
-            "MaxResponseBodySize unset/10/64/1000, header-name normalisation on/off, peer delivering 1/7/100 bytes per read, one Response object reused or not, resp.SkipBody set by the application for 1/15 of the exchanges.",
+            "MaxResponseBodySize unset/10/64/1000, header-name normalisation on/off, peer delivering 1/7/100 bytes per read, one Response object reused or not, resp.SkipBody set by the application for 1/15 of the exchanges. "
+            "Streaming mode (op c11str, client.WithResponseBodyStream(true)): sequences of 2..5 exchanges, per exchange a generated response (as above; limits unset/10/64/1000/20000, peer delivering 1/7/100/5000 bytes per read) and a caller that reads "
+            "the body stream with buffers of 1..65536 bytes, stops after 0/1/3/9/10/11/64/100/1000/4096/8192/8193/9000 bytes or reads to EOF, then closes the stream / never closes it / hands the same Response object to the next Do. "
+            "Interim responses (100 with and without fields, 102, 103, one to three in a row) in front of generated final responses through the bare reader, the buffered and the streaming client, each followed by a second exchange. "
+            "Multipart writer (op mpwrite): 0..4 parts through protocol.AddMultipartFormField / WriteMultipartFormFile on a mime/multipart.Writer with random 60-hex-digit and short boundaries; names, file names (blank, with directories) and content types from vocabularies, 1/12 with quotes, backslashes, CR/LF; contents empty / text / look-alike delimiters / 1..1500 random bytes.",
     "level_text": "Lean models of the request writer (header block model of C05 + body encodings of C04) and of the response reader (first line, scanner, 100-continue skip, "
                   "fixed/chunked/identity bodies, limit) are compared with the real code on every case; theorems for all inputs: the size limit is enforced on every accepted "
                   "response, bodiless statuses never carry a body. Spec step: every written request is read identically by the strict decoder, by the model of hertz's own "
@@ -357,8 +361,8 @@ PROPS["C11"] = {
                   "or a body skipped at the application's wish (resp.SkipBody, /repo 19d2b4c), else release with the unread bytes; ErrBadPoolConn retry of idempotent methods whose body is no stream (/repo 3183d35)) predicts per exchange the bytes the peer receives, the number of dials and the whole result; "
                   "spec per exchange: as long as the peer has conformed so far, the request arrives as given and the response comes back as sent whatever happened before. Theorems for all "
                   "inputs: a failed exchange never returns its connection to the pool; on a pool without unread bytes every exchange returns what its own response bytes give alone, for every sequence, also when the application sets SkipBody for some of the requests (a skipped body never goes back to the pool); after any Do, with or without a retry and whatever its outcome, resp.SkipBody is what the application set (skip_flag_restored, response_object_keeps_application_flag; /repo 07a471c).",
-    "level_note": _H1_NOTE + " HostClient.Do's pool/retry logic is C10; multipart uploads (fields, file readers delivering content in pieces around the 512-byte sniffing buffer) are written by the real code and decoded by net/http and by hertz's own reader, the multipart syntax itself is mime/multipart's and is not modelled; response streaming mode reuses the "
-                  "C14 body-stream model and is not separately compared here (c11seq runs buffered mode only). In c11seq all URLs of a sequence share one authority (one pool); the read deadline of the in-memory peer expires at once when it has nothing to send.",
+    "level_note": _H1_NOTE + " HostClient.Do's pool/retry logic is C10; multipart uploads (fields, file readers delivering content in pieces around the 512-byte sniffing buffer) are written by the real code and decoded by net/http and by hertz's own reader, the multipart syntax itself is mime/multipart's and is not modelled; the second stage of req.handleMultipart (ReadForm + MarshalMultipartForm, map order) is mime/multipart's. "
+                  "Streaming mode (Model/Http1/RespStream.lean = prefetch of ReadBodyWithStreaming + the C14 bodyStream model + clientRespStream.Close/release callback) is compared token by token with the real client (c11str); two values are taken from the implementation and checked for admissibility instead of predicted: the prefetched length when Content-Length exceeds the limit, and whether a well-formed rest of a chunked message was drained or the connection closed (depends on buffering). MaxResponseBodySize is NOT enforced in streaming mode (it bounds the prefetch; theorem stream_mode_limit_not_enforced). 101 + Connection: Upgrade (connection handed to the application) is not modelled. Known findings: interim 1xx other than one 100 taken as the final response (pool poisoned), Content-Disposition parameters written unescaped, bodyStream.Read panic when the peer sends more than Content-Length into the prefetch. In c11seq all URLs of a sequence share one authority (one pool); the read deadline of the in-memory peer expires at once when it has nothing to send.",
     "assumptions": ["net/http.ReadRequest as second opinion", "header values set by the application are free of control bytes (CR/LF are C05; NUL etc. are written verbatim)"],
 }
 
